@@ -43,7 +43,7 @@ extern "C" void harness(void) {
     al->addShape(0, 0); al->addShape(1, o1); al->addShape(2, o2);
     ccs.push_back(al);
 #elif CC == 3
-    double bo0 = verif_coord(0, 8), bo1 = verif_coord(0, 8);
+    double bo0 = verif_coord(1, 8), bo1 = verif_coord(0, 8);     // a left-of offset must be strictly negative (0 means right-of)
     BoundaryConstraint *bc = new BoundaryConstraint(dim);
     bc->addShape(0, -bo0);      // negative offset: shape lies on the low side of the boundary, at least bo0 away
     bc->addShape(1, bo1);       // positive offset: high side
